@@ -128,11 +128,105 @@ def post(ctx, c, rep):
     isotie.check_history(ctx, c.cfg, c.ops, rp)
 
 
+def probe_inplace_and_hybrid(ctx):
+    """two ways to put an object on top of another that the history oracle does not reach: (a) replacing a file in place
+    with contents that need one more sector than the file owns (lengths that are exact multiples of the block size
+    included) must be refused — if it is accepted the allocation of the modified image is examined; (b) an EFI hybrid
+    whose ISO ends exactly on a cylinder boundary still needs room for the backup GPT: bytes 32768.. of the hybrid image
+    must be the plain image (`Hybrid.backup_gpt_in_padding`)"""
+    import os
+    import shutil
+    import tempfile
+    import pycdlib
+    tmpdir = tempfile.mkdtemp(prefix='verif-c04p-')
+    try:
+        rp = {'kind': 'probe-inplace-hybrid'}
+        sizes = {'AAA': 2048, 'BBB': 4096, 'CCC': 1, 'DDD': 6144, 'ZZZ': 100}
+        for flavour in ({}, {'joliet': 3}, {'udf': '2.60'}):
+            path = os.path.join(tmpdir, 'i.iso')
+            with isoapi.frozen_time():
+                iso = pycdlib.PyCdlib()
+                iso.new(**flavour)
+                for nm, n in sizes.items():
+                    kw = {'joliet_path': '/' + nm.lower()} if flavour.get('joliet') else {}
+                    if flavour.get('udf'):
+                        kw['udf_path'] = '/' + nm.lower()
+                    iso.add_fp(io.BytesIO(nm[:1].encode() * n), n, '/%s.;1' % nm, **kw)
+                iso.write(path)
+                iso.close()
+            for nm, n in sizes.items():
+                for extra in (1, 2048):
+                    newlen = ((n + 2047) // 2048) * 2048 + extra
+                    work = os.path.join(tmpdir, 'w.iso')
+                    shutil.copy(path, work)
+                    iso = pycdlib.PyCdlib()
+                    accepted = False
+                    with open(work, 'r+b') as fp:
+                        try:
+                            iso.open_fp(fp)
+                            with isoapi.frozen_time():
+                                iso.modify_file_in_place(io.BytesIO(b'#' * newlen), newlen, '/%s.;1' % nm)
+                            accepted = True
+                        except Exception as e:  # noqa
+                            if isoapi.exc_class(e) != 'invalidInput':
+                                ctx.violation('C04.inplace/%s' % isoapi.exc_class(e), 'in-place replacement of %s (%d -> %d bytes) raised %r' % (nm, n, newlen, e), rp)
+                        try:
+                            iso.close()
+                        except Exception:
+                            pass
+                    ctx.count(key=('inplace-larger', tuple(sorted(flavour)), nm, extra), nontrivial=True, kind='probe:inplace-larger:%s' % ('accepted' if accepted else 'refused'))
+                    if accepted:
+                        rep = isoapi.read_image(ctx, work)
+                        bad = isoapi.check_allocs(rep)
+                        detail = '; '.join('%s %s' % (c, d) for c, d in bad[:2]) or 'the file now claims sectors it was never given'
+                        ctx.violation('C04.inplace/grows-beyond-its-sectors', 'in-place replacement of %s (%d bytes, %d sectors) by %d bytes was accepted: %s' % (
+                            nm, n, (n + 2047) // 2048, newlen, detail), rp)
+        # (b) EFI hybrid that ends exactly on a cylinder boundary (64 heads x 32 sectors x 512 = 1 MiB = 512 blocks)
+        for target in (512, 1024):
+            def build(hybrid, fill):
+                with isoapi.frozen_time():
+                    iso = pycdlib.PyCdlib()
+                    iso.new()
+                    b = isoapi.isolinux_boot(2048)
+                    iso.add_fp(io.BytesIO(b), len(b), '/ISOLINUX.;1')
+                    iso.add_fp(io.BytesIO(b'e' * 4096), 4096, '/EFI.;1')
+                    iso.add_eltorito('/ISOLINUX.;1', boot_load_size=4)
+                    iso.add_eltorito('/EFI.;1', efi=True)
+                    if fill:
+                        iso.add_fp(io.BytesIO(b'z' * fill), fill, '/ZZZ.;1')
+                    if hybrid:
+                        iso.add_isohybrid(efi=True)
+                    out = io.BytesIO()
+                    iso.write_fp(out)
+                    space = iso.pvd.space_size
+                    iso.close()
+                return out.getvalue(), space
+            _, space0 = build(False, 1)
+            fill = (target - (space0 - 1)) * 2048
+            if fill <= 0:
+                continue
+            base, space = build(False, fill)
+            img, _ = build(True, fill)
+            ctx.count(key=('hybrid-boundary', target, space), nontrivial=space % 512 == 0, kind='probe:hybrid-boundary')
+            if space % 512 != 0:
+                ctx.notes.append('hybrid boundary probe: space %d is not a multiple of 512' % space)
+            if img[32768:len(base)] != base[32768:]:
+                d = next(i for i in range(32768, len(base)) if img[i] != base[i])
+                ctx.violation('C04.hybrid/backup-gpt-overwrites-iso', 'EFI hybrid of an ISO of %d sectors (exactly %d cylinders): byte %d (sector %d) of the ISO is overwritten by hybrid data' % (
+                    space, space // 512, d, d // 2048), rp)
+    finally:
+        shutil.rmtree(tmpdir, ignore_errors=True)
+
+
 def run(ctx):
+    probe_inplace_and_hybrid(ctx)
     c01.run(ctx, focus='C04', post=post, n_quick=170, n_thorough=5000, force={'duppvd': True})
     # allocation must stay sound for edits made to a reopened image (parsed continuation areas, parsed extents)
     c01.run(ctx, focus='C04', post=post, n_quick=100, n_thorough=3000, reopen_every=5)
 
 
 def replay(ctx, obj):
+    if obj.get('replay', obj).get('kind') == 'probe-inplace-hybrid':
+        probe_inplace_and_hybrid(ctx)
+        return [v['signature'] for v in ctx.violations]
     return c01.replay(ctx, obj, focus='C04', post=post)
